@@ -35,9 +35,9 @@ def body_blocks(kind, opts):
         bs += [v('sequence-' + f), ['lit', '|']]
     if kind in ('obj', 'str', 'int', 'tuple'):
         bs += [['lit', 'item='], v('sequence-item'), ['lit', '|']]
-    if kind == 'tuple':
+    if kind in ('tuple', 'tuplemap'):
         bs += [['lit', 'key='], v('sequence-key'), ['lit', '|']]
-    if kind in ('obj', 'map', 'tuple'):
+    if kind in ('obj', 'map', 'tuple', 'tuplemap'):
         bs += [['lit', 'var='], v('sequence-var-x'), ['lit', '|f='], v('first-x'), ['lit', '|l='], v('last-x'), ['lit', '|']]
     bs += [['lit', 'x='], v('x', 'NOPUSH'), ['lit', '|']]
     if opts.get('prefix'):
@@ -46,7 +46,7 @@ def body_blocks(kind, opts):
             bs += [v(p + '_' + f), ['lit', '|']]
         if kind in ('obj', 'str', 'int', 'tuple'):
             bs += [['lit', 'pitem='], v(p + '_item'), ['lit', '|']]
-        if kind == 'tuple':
+        if kind in ('tuple', 'tuplemap'):
             bs += [['lit', 'pkey='], v(p + '_key'), ['lit', '|']]
     bs.append(['lit', ';'])
     return bs
@@ -68,6 +68,8 @@ def xval(item, kind):
         return dict(item['d'])['x']
     if kind == 'tuple':
         return dict(item['t'][1]['a'])['x']
+    if kind == 'tuplemap':
+        return dict(item['t'][1]['d'])['x']
     return None
 
 
@@ -94,23 +96,23 @@ def expected(items, kind, opts):
         cells = [i, i + 1, chr(97 + i), chr(65 + i), to_roman(i + 1).lower(), to_roman(i + 1), i % 2 == 0, i % 2,
                  1 if first else 0, 1 if last else 0, n]
         line = ''.join('%s|' % c for c in cells)
-        item = it['t'][1] if kind == 'tuple' else it
+        item = it['t'][1] if kind in ('tuple', 'tuplemap') else it
         if kind in ('obj', 'str', 'int', 'tuple'):
             line += 'item=%s|' % jstr(item)
-        if kind == 'tuple':
+        if kind in ('tuple', 'tuplemap'):
             line += 'key=%s|' % jstr(it['t'][0])
-        if kind in ('obj', 'map', 'tuple'):
+        if kind in ('obj', 'map', 'tuple', 'tuplemap'):
             x = xval(it, kind)
             f = 1 if first else (x != xval(seq[i - 1], kind))
             la = 1 if last else (x != xval(seq[i + 1], kind))
             line += 'var=%s|f=%s|l=%s|' % (jstr(x), f, la)
-        pushed = kind in ('obj', 'map', 'tuple') and not opts.get('noPush')
+        pushed = kind in ('obj', 'map', 'tuple', 'tuplemap') and not opts.get('noPush')
         line += 'x=%s|' % (jstr(xval(it, kind)) if pushed else 'NOPUSH')
         if opts.get('prefix'):
             line += ''.join('%s|' % c for c in cells)
             if kind in ('obj', 'str', 'int', 'tuple'):
                 line += 'pitem=%s|' % jstr(item)
-            if kind == 'tuple':
+            if kind in ('tuple', 'tuplemap'):
                 line += 'pkey=%s|' % jstr(it['t'][0])
         out.append(line + ';')
     return ''.join(out)
@@ -131,6 +133,8 @@ def gen_items(r, kind, n):
             items.append({'d': [['x', x], ['y', i]]})
         elif kind == 'tuple':
             items.append({'t': [r.choice([{'s': 'k%d' % i}, i * 10]), {'o': 100 + i, 'a': [['x', x]]}]})
+        elif kind == 'tuplemap':
+            items.append({'t': [r.choice([{'s': 'k%d' % i}, i * 10]), {'d': [['x', x], ['y', i]]}]})
         elif kind == 'str':
             items.append({'s': r.choice(['s%d' % i, 'x', ''])})
         else:
@@ -141,15 +145,25 @@ def gen_items(r, kind, n):
 def make(r, kind, n, opts):
     items = gen_items(r, kind, n)
     inopts = {}
-    if kind == 'map':
+    if kind in ('map', 'tuplemap'):
         inopts['mapping'] = True
     if opts.get('noPush'):
         inopts['noPush'] = True
     if opts.get('prefix'):
         inopts['prefix'] = opts['prefix']
-    blocks = [['in', ['n', 'seq'], inopts, body_blocks(kind, opts), [['lit', 'EMPTY']] if opts.get('else') else None],
-              ['lit', '#'], ['var', ['n', 'sequence-item'], False, 'GONE', None],
-              ['var', ['n', 'x'], False, 'GONE', None], ['var', ['n', 'sequence-index'], False, 'GONE', None]]
+    body = body_blocks(kind, opts)
+    if opts.get('boom') is not None:
+        # the body raises at element `boom`; the exception is handled OUTSIDE the loop, inside an enclosing dtml-let
+        body = body + [['cond', [[['e', ['eq', ['under', 'sequence-index'], ['lit', opts['boom']]]],
+                                  [['raise', 'KeyError', None, [['lit', 'm']]]]]], None]]
+    loop = ['in', ['n', 'seq'], inopts, body, [['lit', 'EMPTY']] if opts.get('else') else None]
+    tail = [['lit', '#'], ['var', ['n', 'sequence-item'], False, 'GONE', None],
+            ['var', ['n', 'x'], False, 'GONE', None], ['var', ['n', 'sequence-index'], False, 'GONE', None]]
+    if opts.get('boom') is not None:
+        blocks = [['let', [['outerv', ['e', ['lit', 1]]]], [['try', [loop], [['', [['lit', 'CAUGHT']]]], None]] + tail],
+                  ['var', ['n', 'outerv'], False, 'GONE', None]]
+    else:
+        blocks = [loop] + tail
     return items, blocks
 
 
@@ -267,7 +281,7 @@ def run(res, tier, have_driver):
     n_cases = 500 if tier == 'quick' else 8000
     model_cases = []
     for ci in range(n_cases):
-        kind = r.choice(['obj', 'obj', 'map', 'tuple', 'str', 'int'])
+        kind = r.choice(['obj', 'obj', 'map', 'tuple', 'tuplemap', 'str', 'int'])
         n = r.choice([0, 1, 2, 3, 3, 4, 5, 7])
         opts = {}
         if r.random() < 0.25:
@@ -278,16 +292,28 @@ def run(res, tier, have_driver):
             opts['else'] = True
         plain = r.random() < 0.45
         if not plain:
-            if kind in ('obj', 'map', 'tuple') and r.random() < 0.5:
+            if kind in ('obj', 'map', 'tuple', 'tuplemap') and r.random() < 0.5:
                 opts['sort'] = True
             if r.random() < 0.4:
                 opts['reverse'] = True
             if n >= 2 and r.random() < 0.5:
                 opts['size'] = r.randint(1, n)
                 opts['start'] = r.randint(1, n)
+        if n >= 1 and r.random() < 0.2:
+            opts['boom'] = r.randrange(n)
         items, blocks = make(r, kind, n, opts)
-        exp_body = expected(items, kind, opts)
-        exp = exp_body + '#GONEGONEGONE'
+        if opts.get('boom') is not None:
+            # did the displayed window reach element `boom`?  (positions are those of the displayed order)
+            lo, hi = 0, n
+            if opts.get('size'):
+                lo = opts.get('start', 1) - 1
+                hi = min(lo + opts['size'], n)
+            if lo <= opts['boom'] < hi:
+                exp = 'CAUGHT#GONEGONEGONEGONE'
+            else:
+                exp = expected(items, kind, opts) + '#GONEGONEGONEGONE'
+        else:
+            exp = expected(items, kind, opts) + '#GONEGONEGONE'
         src = source_for(blocks, opts)
         cont = r.choice(['list', 'tuple', 'iter', 'gen', 'lazy']) if not plain else r.choice(['list', 'tuple'])
         got = run_direct(src, items, cont)
